@@ -5,7 +5,6 @@
 package c13
 
 import (
-	"sync/atomic"
 	"context"
 	"encoding/json"
 	"errors"
@@ -13,6 +12,7 @@ import (
 	"math"
 	"reflect"
 	"sync"
+	"sync/atomic"
 	"time"
 
 	eventbus "github.com/jilio/ebu"
@@ -166,7 +166,7 @@ func run(c *Case) *vkit.Outcome {
 	// busy machine): that is the environment, not the bus - the case is then
 	// not judged.
 	var envTimeouts atomic.Int32
-	var curPlanned atomic.Value // kind planned for the append in flight
+	var curPlanned atomic.Value       // kind planned for the append in flight
 	var innerAppendFailed atomic.Bool // the inner store itself refused the append in flight
 	base.OnInnerError = func(op string, err error) {
 		if op == "append" {
